@@ -53,6 +53,30 @@ P = {
          "Lean 4 theorems over the executable model EmdModel/Extrema.lean, for every signal, pad width, mode, refinement flag and every interpolant: extrema are exactly the strict interior maxima/minima, sorted and never adjacent; None is returned exactly with fewer than two extrema; parabolic refinement stays within +-1/2 sample and strictly ordered; padding leaves the interior untouched, adds equally many odd-reflected locations beyond both ends (incl. numpy's multi-chunk case), strictly ordered, with edge-replicated magnitudes, covers [0,n), and the re-padding loop terminates within n+1 rounds; the evaluation grid is the sample grid 0..n-1 (also for fractional locations), the envelope has n values equal to the interpolant at integer times, and passes through unrefined peaks/troughs under the interpolation contract. Tied to /repo by exhaustive correspondence (all 3-level sequences of length <= 7/9 x pad 0..5 x 3 modes, exact) plus random signals with ties and an envelope stream (parabolic on/off x 3 interpolants x 3 modes).",
          'Trusted: Lean kernel + propext/Classical.choice/Quot.sound; model + harness; the scipy interpolant is an oracle (rebuilt by the harness with the same constructor from the returned extrema; knot interpolation validated each run); the np.pad model is itself checked against real np.pad. Parabolic-mode floats compared within 1e-9 with ill-conditioned/near-tie cases skipped and counted; custom np.pad option dicts are outside the model. Defect D17 repaired in /repo.',
          "Lean 4 proof over hand-written model + differential correspondence with the implementation", '5 C05'),
+ 'C06': (True,
+         "Lean 4 theorems over a call-binding model of the sift family (EmdModel/Options.lean) that emits one record per stage call: on every delivery route (keyword dicts, get_config unpacked, SiftConfig.get_func partial) and in every variant (sift, ensemble, complete ensemble incl. its noise-only sifts, mask sift and its two helpers, second layer), including pool jobs, each stage call's options are the supplied value or the signature default (stage_opts_effective); routes are indistinguishable (route_independent); every stage is reached; resolve is idempotent; the code's special-case literals equal the signature defaults. Correspondence: the three public stage functions are wrapped from outside before pools fork (per-pid trace files), and the set of distinct effective option records per stage is compared with the model's over variant x stop rule/step/thresholds x interpolation x padding/parabolic/custom pad dicts x route x nprocesses {1,2}; the instance check replays every observed call with user-derived options and checks output equality with an explicitly assembled pipeline and option sensitivity.",
+         'Trusted: Lean kernel + standard axioms; model + harness; live signatures are compared with the model constants on every run; the numerical effect of options is instance-checked only; sets of distinct records are compared, not call counts; real worker processes are traced, not modelled. Defects D5 (mask sift / get_mask_freqs / complete-ensemble noise sifts dropping options) repaired in /repo.',
+         "Lean 4 proof over hand-written model + differential correspondence with the implementation", '5 C06'),
+ 'C09': (True,
+         "Lean 4 theorems on an exact-rational model (EmdModel/Phase.lean): wrapped phase lies in [0,m); wrap is the unique representative; the returned frequency is sr/(2pi) * np.gradient of the very phase that is wrapped for output, and equals the scaled gradient of np.unwrap(IP) wherever the phase moves by less than pi per sample (numpy's unwrap algorithm proved to invert wrap); shapes preserved; phase and frequency invariant and amplitude equivariant under positive rescaling for hilbert/nht/quad given hilbert linearity, angle/abs scaling, envelope homogeneity and the (proved) scale-free sign-preserving amplitude normalisation; quadrature signal has unit modulus; frequency->phase->frequency is the two-sample mean at interior samples 1..n-2, f[1] and f[n-1] at the ends, exact on constant stretches. Correspondence over 10 streams drives the real public functions with oracle tables from the next-lower public functions (exact where float arithmetic is exact, 1e-9 elsewhere).",
+         'PARTIAL: sinusoid recovery accuracy (frequency / amplitude / phase on the interior of the record) and the ulp-level case x % 2pi == 2pi are decided by the instance check only, against a per method x cycles-per-record x samples-per-cycle tolerance table calibrated on the clean tree with x3 margin (for quad only mean frequency, mean phase and amplitude are tight); bit-exactness under 2^k rescaling is an instance check. scipy hilbert, np.angle/abs, medfilt, interpolants are oracles validated each run; np.gradient, cumsum, %, np.unwrap are modelled exactly and compared with numpy on every run. A 1-D input comes back as (n,1) (documented ensure_2d behaviour).',
+         "Lean 4 proof over hand-written model + differential correspondence with the implementation", '5 C09'),
+ 'C15': (True,
+         'Lean 4 theorems over the executable state-machine model of emd.cycles.Cycles (EmdModel/Container.lean), for every phase, reducing function, value vector, float() oracle and operation history: the invariant (one entry per cycle in every metric, unique names, subset = order-preserving rank vector, chains = chain vector of the subset) holds after every operation sequence (Inv_init/Inv_step/Inv_run); a computed metric equals f on exactly the samples of each cycle (augmented segment or NaN in augmented mode); the condition parser satisfies parse(print) = id for all names, comparators and literals, the six comparators mean what they say and matching is the conjunction; chains are the maximal runs of consecutive selected cycles; chain_ind, chain metrics and the three exports agree with the store and the selection; slice-cache and label-lookup results are equal in both modes over whole lifetimes. Correspondence compares the full observable state after every step with cache on and off: exhaustive op sequences up to length 3/4 over a 10-op alphabet, random sequences up to length 12, all comparators x 16 literal spellings x malformed forms.',
+         "Trusted: Lean kernel + standard axioms; model + harness; float() and pandas table construction are oracles. chain_ind and 'subset = currently matching cycles' are proved for histories that do not overwrite the metrics they derive from (staleness stated, not hidden); chain timings are proved at computation time. Assumptions: integer-valued data, finite literals. Six defects (augmented statistics, slice cache, empty selection, rejected pick, subset export) repaired in /repo.",
+         "Lean 4 proof over hand-written model + differential correspondence with the implementation", '5 C15'),
+ 'C18': (True,
+         "Lean 4 theorems (EmdModel/Config.lean): key-path get/set/delete equal nested indexing along split('/') for every key string and every store (too-deep keys raise); write/read-back, frame and delete laws (delete keeps the parent, set under a missing parent errors); toYamlSafe is idempotent, array-free and keeps the options; both YAML routes (file: two documents, text: one two-element list) invert the dump up to tuple->list under the codec law, also through get_func; dumping leaves the live configuration untouched; the default config equals the signature defaults. Correspondence: random edit histories (set/get/del at depth 1-3 with scalars, None, lists, tuples, arrays, missing parents, too-deep keys) mirrored on the model and a real SiftConfig, both YAML routes, foreign YAML, default configs for all variants; instance: config-driven calls are bit-identical to plain calls (seeded).",
+         'Trusted: Lean kernel + standard axioms; model + harness; PyYAML (load(dump(t)) = t on yaml-safe trees) and inspect.signature tables are oracles validated each run; assumptions: no object stored under two keys, the three stage entries are dicts. Defects D14a/D14b repaired in /repo.',
+         "Lean 4 proof over hand-written model + differential correspondence with the implementation", '5 C18'),
+ 'C19': (True,
+         'Lean 4 theorems (EmdModel/Support.lean) characterising exactly which shapes the four ensure_* routines accept, reject and how they normalise: ensure_1d_with_singleton accepts exactly (n), (n,1), (n,1,..,1) -> (n,1) and raises ValueError exactly for rank >= 2 with a trailing dimension != 1; ensure_vector / ensure_2d specs; ensure_equal_dims ok / ValueError / IndexError characterised per axis and for all axes; multi-array calls accepted iff every array is; element count preserved. Correspondence: exhaustive over all shapes of rank <= 4 over {1,2,3,5} and all pairs of shapes of rank <= 3 x dim in {None,0,1,2}, error kinds compared.',
+         'PARTIAL by nature: non-mutation of inputs and option dicts, layout value-equality, read-only acceptance, repeatability and the per-entry-point accept/reject tables have no counterpart in a pure functional model and are decided by the instance check only (byte snapshots and output digests of 53 public entry-point variants x layouts x read-only arrays x reused option dicts, in resource-limited children). Defects D15a/b/c and three related shape defects repaired in /repo.',
+         "Lean 4 proof over hand-written model + differential correspondence with the implementation", '5 C19'),
+ 'C20': (True,
+         "Lean 4 theorems over the logger state machine (EmdModel/Logger.lean; wrapVerbose mirrors wrap_verbose line by line): after every decorated call (returning or raising, any verbosity, from any state including never-set-up) the full logger state is restored; results and errors are the call's own, never a wrapper error; an override is in force during the call; lifted by induction to all histories (the level trajectory does not move across a call, the final state equals that of the history with calls removed, results depend on the calls alone). Correspondence enumerates every history of length 3 (quick) / 4 (thorough) over 21 operations from both start states as a fork tree (each history in its own process), plus random longer histories with file logging, all sift variants and non-convergence raises; compared per step: get_level(), error kind, console visibility of INFO/DEBUG records, output digest.",
+         'Trusted: Lean kernel + standard axioms; model + harness; the wrapped function body is abstracted to returns/raises and python logging is an oracle; independence of real sift outputs from logger state is decided by bitwise digest comparison in the correspondence run. Defect D16 repaired in /repo.',
+         "Lean 4 proof over hand-written model + differential correspondence with the implementation", '5 C20'),
 }
 ALL = ['C%02d' % i for i in range(1, 21)]
 
